@@ -248,11 +248,18 @@ impl SqPackData {
 
         let mut buffer = Cursor::new(Vec::new());
 
-        let base_offset = offset + (file_info.size as u64);
+        let base_offset = offset.checked_add(file_info.size as u64)?;
 
-        let total_blocks = model_file_info.num.total();
+        // summed in usize: the per-section counts are u16 and their total may not fit that type
+        let num = &model_file_info.num;
+        let mut total_blocks = num.stack_size as usize + num.runtime_size as usize;
+        for i in 0..3 {
+            total_blocks += num.vertex_buffer_size[i] as usize
+                + num.edge_geometry_vertex_buffer_size[i] as usize
+                + num.index_buffer_size[i] as usize;
+        }
 
-        let mut compressed_block_sizes: Vec<u16> = vec![0; total_blocks as usize];
+        let mut compressed_block_sizes: Vec<u16> = vec![0; total_blocks];
         let slice: &mut [u8] = to_u8_slice(&mut compressed_block_sizes);
 
         self.file.read_exact(slice).ok()?;
@@ -281,14 +288,13 @@ impl SqPackData {
             for _ in 0..size {
                 let last_pos = &self.file.stream_position().ok()?;
 
-                let data =
-                    read_data_block(&self.file, *last_pos).expect("Unable to read block data.");
+                let data = read_data_block(&self.file, *last_pos)?;
                 // write to buffer
                 buffer.write_all(data.as_slice()).ok()?;
 
                 self.file
                     .seek(SeekFrom::Start(
-                        last_pos + (compressed_block_sizes[current_block] as u64),
+                        last_pos + (*compressed_block_sizes.get(current_block)? as u64),
                     ))
                     .ok()?;
                 current_block += 1;
@@ -311,7 +317,8 @@ impl SqPackData {
              size: u32,
              offset: u32,
              offsets: &mut [u32; 3],
-             data_sizes: &mut [u32; 3]| {
+             data_sizes: &mut [u32; 3]|
+             -> Option<()> {
                 if size != 0 {
                     let current_vertex_offset = buffer.position() as u32;
                     if i == 0 || current_vertex_offset != offsets[i - 1] {
@@ -322,27 +329,26 @@ impl SqPackData {
 
                     self.file
                         .seek(SeekFrom::Start(base_offset + (offset as u64)))
-                        .ok();
+                        .ok()?;
 
                     for _ in 0..size {
-                        let last_pos = self.file.stream_position().unwrap();
+                        let last_pos = self.file.stream_position().ok()?;
 
-                        let data = read_data_block(&self.file, last_pos)
-                            .expect("Unable to read raw model block!");
+                        let data = read_data_block(&self.file, last_pos)?;
 
-                        buffer
-                            .write_all(data.as_slice())
-                            .expect("Unable to write to memory buffer!");
+                        buffer.write_all(data.as_slice()).ok()?;
 
-                        data_sizes[i] += data.len() as u32;
+                        data_sizes[i] = data_sizes[i].checked_add(data.len() as u32)?;
                         self.file
                             .seek(SeekFrom::Start(
-                                last_pos + (compressed_block_sizes[current_block] as u64),
+                                last_pos + (*compressed_block_sizes.get(current_block)? as u64),
                             ))
-                            .expect("Unable to seek properly.");
+                            .ok()?;
                         current_block += 1;
                     }
                 }
+
+                Some(())
             };
 
         // process all 3 lods
@@ -354,7 +360,7 @@ impl SqPackData {
                 model_file_info.offset.vertex_buffer_size[i],
                 &mut vertex_data_offsets,
                 &mut vertex_data_sizes,
-            );
+            )?;
 
             // TODO: process edges
 
@@ -365,7 +371,7 @@ impl SqPackData {
                 model_file_info.offset.index_buffer_size[i],
                 &mut index_data_offsets,
                 &mut index_data_sizes,
-            );
+            )?;
         }
 
         let header = ModelFileHeader {
